@@ -81,6 +81,8 @@ type Entry interface {
 	validateMandatoryWithKeys(ctx context.Context, level int, attribute string, resultChan chan<- *types.ValidationResultEntry)
 	// getHighestPrecedenceValueOfBranch returns the highes Precedence Value (lowest Priority value) of the brach that starts at this Entry
 	getHighestPrecedenceValueOfBranch() int32
+	// holdsOldEntryWithPriority reports whether the branch holds an intent owned LeafEntry of the given priority that is neither new nor updated
+	holdsOldEntryWithPriority(prio int32) bool
 	// GetSchema returns the *sdcpb.SchemaElem of the Entry
 	GetSchema() *sdcpb.SchemaElem
 	// IsRoot returns true if the Entry is the root of the tree
